@@ -263,6 +263,14 @@ def run_sampler_dtypes(arg):
 
     if dt is None:
         return r.dump()
+    if sampler in ("minipcn", "emcee"):
+        from env import any_run
+
+        R = any_run.run_any(dict(cfg, opts={}, n_final=None))
+        R.history = {"sample_history": []}
+        inspect_run(R, "fresh")
+        r.sample(case)
+        return r.dump()
     R = rh.run(cfg)
     ok = inspect_run(R, "fresh")
     if ok and R.sink:
@@ -350,8 +358,8 @@ def run(tier, seed, workers):
     rep = Report()
     jobs = [("run_conversions", (cls, ns)) for cls in ("BaseSamples", "Samples", "SMCSamples") for ns in NS]
     jobs.append(("run_helpers", None))
-    for sampler in ("smc", "emcee_smc"):
-        for ns in ("numpy", "torch", "jax") if tier == "thorough" else ("numpy", "torch"):
+    for sampler in ("smc", "emcee_smc", "minipcn", "emcee"):
+        for ns in ("numpy", "torch", "jax") if (tier == "thorough" and sampler in ("smc", "emcee_smc")) else ("numpy", "torch"):
             for dt in ("float32", "float64"):
                 jobs.append(("run_sampler_dtypes", (sampler, ns, dt)))
     jobs.append(("run_flow_outputs", "zuko"))
